@@ -38,8 +38,8 @@ package deployment
 //@ func (*realController).Finalize
 //@ props C11 C18
 //@ requires rc != nil && release != nil && rc.object != nil && rc.client != nil
-//@ ensures waits_on_the_real_workload: #waitReady >= 1 && #Patch == 0 ==> #waitReady.arg0 == rc.object
-//@ ensures success_means_waited: result == nil && release.Spec.ReleasePlan.BatchPartition == nil ==> #waitReady == 1 && #waitReady.ret0 == nil
+//@ ensures {C11} waits_on_the_real_workload: #waitReady >= 1 && #Patch == 0 ==> #waitReady.arg0 == rc.object
+//@ ensures {C11} success_means_waited: result == nil && release.Spec.ReleasePlan.BatchPartition == nil ==> #waitReady == 1 && #waitReady.ret0 == nil
 // C18 (F21): "done" is only reported after the workload has been released from control; with batchPartition still set
 // the function reports done without restoring anything (recorded as a known finding, see known-findings.txt).
 //@ ensures {C18} success_only_after_release: result == nil ==> release.Spec.ReleasePlan.BatchPartition == nil
